@@ -56,6 +56,16 @@ def configs(tier, rnd):
                 if pm is not None:
                     para["marks"] = pm
                 out.insert(0, {"nodes": {"doc": {"content": "block+"}, "paragraph": para, "text": {"group": "inline"}}, "marks": marks})
+    # further node types in every configuration: what a missing `marks` declaration means depends on whether the type
+    # has inline content - not on whether it is a block (an inline node with inline content admits every mark)
+    for spec in out:
+        ms = list(spec["marks"])
+        spec["nodes"] = dict(spec["nodes"])
+        spec["nodes"]["paragraph"] = {**spec["nodes"]["paragraph"], "content": "inline*"}
+        spec["nodes"]["note"] = {"content": "text*", "group": "inline", "inline": True, "atom": True}
+        spec["nodes"]["pill"] = {"content": "text*", "group": "inline", "inline": True, "marks": ms[0]}
+        spec["nodes"]["dot"] = {"group": "inline", "inline": True}
+        spec["nodes"]["box"] = {"content": "block+", "group": "block"}
     return out
 
 
@@ -100,9 +110,10 @@ def run(tier, seed, findings):
                 if mt.excludes(mt2) != O.excludes(m, m2):
                     rec.violation("excludes-method", f"{m}.excludes({m2})", call0)
         pt = S.nodes["paragraph"]
-        for m, mt in S.marks.items():
-            if pt.allows_mark_type(mt) != O.allows("paragraph", m):
-                rec.violation("allows-compile", f"paragraph allows {m}: {pt.allows_mark_type(mt)}", call0)
+        for tn, nt_ in S.nodes.items():
+            for m, mt in S.marks.items():
+                if nt_.allows_mark_type(mt) != O.allows(tn, m):
+                    rec.violation("allows-compile", f"{tn} allows {m}: {nt_.allows_mark_type(mt)}", dict(call0, node=tn, node_spec=spec["nodes"][tn]))
         # all mark instances
         inst = []
         for m, mt in S.marks.items():
